@@ -547,8 +547,11 @@ class Server(base_server.BaseServer):
             success = False
 
         if success is False:
+            if not self.manager.is_connected(sid, namespace):
+                # the connection ended while its connect handler was running
+                return
+            self.manager.pre_disconnect(sid, namespace)
             if self.always_connect:
-                self.manager.pre_disconnect(sid, namespace)
                 self._send_packet(eio_sid, self.packet_class(
                     packet.DISCONNECT, data=fail_reason, namespace=namespace))
             else:
